@@ -81,6 +81,7 @@ type passConn struct {
 	// the serving cluster does not end the stream when the proxy half-closes it (a stalled or
 	// lazy peer): only the cancellation of the outgoing context can release the proxy's reader
 	noEndOnClose bool
+	faultFrom    int // decision from which this connection's terminal event may fire (spread over the run)
 }
 
 type PassWorld struct {
@@ -284,6 +285,9 @@ func (w *PassWorld) open(bad bool) *passConn {
 	id := len(w.conns) + 1
 	pc := &passConn{id: id, bad: bad, name: fmt.Sprintf("c%d", id), nextHigh: 100}
 	pc.noEndOnClose = w.s.Draw(3) == 2
+	if w.prof.Faults && w.s.Draw(2) == 1 {
+		pc.faultFrom = w.s.Stats.Decisions + w.s.Draw(maxInt(1, w.cfg.Budget-w.s.Stats.Decisions))
+	}
 	md := map[string]string{
 		history.MetadataKeyClientClusterID: "1",
 		history.MetadataKeyClientShardID:   strconv.Itoa(1 + (id-1)%int(maxi32(1, common.LCM(w.cfg.Local, w.cfg.Remote)))),
@@ -435,7 +439,7 @@ func (w *PassWorld) Actions() []simrt.Action {
 			}
 		}
 		// terminal events (C06)
-		if w.prof.Faults && w.phase == 0 && pc.terminal == "" && initLive {
+		if w.prof.Faults && w.phase == 0 && pc.terminal == "" && initLive && w.s.Stats.Decisions >= pc.faultFrom {
 			add("FAULT init-closesend:"+pc.name, 1, true, func() { w.fault(pc, "init-closesend"); pc.init.HarnessCloseSend() })
 			add("FAULT init-cancel:"+pc.name, 1, true, func() { w.fault(pc, "init-cancel"); pc.cancel() })
 			add("FAULT init-break:"+pc.name, 1, true, func() {
@@ -673,4 +677,11 @@ func RunPass(s *simrt.Sim, prof PassProfile) *Result {
 		}
 	}
 	return finish()
+}
+
+func maxInt(a, b int) int {
+	if a > b {
+		return a
+	}
+	return b
 }
